@@ -215,7 +215,8 @@ PROPS = {
         "assumptions": ["logical-clock stamps bracket the cache call (the handler path adds a barrier COUNT that touches no cache state)"],
     },
     "C06": {
-        "lean_modules": ["MocProps.C06"], "theorem_files": ["MocProps/C06.lean"],
+        "lean_modules": ["MocProps.C06", "MocProps.C06Tables", "MocProps.C06Tombs"],
+        "theorem_files": ["MocProps/C06.lean", "MocProps/C06Tables.lean", "MocProps/C06Tombs.lean"],
         "gen_groups": ["Sqlite", "Cache", "Matcher"], "harness_prop": "sqlite", "driver_prop": "sqlite", "stateful": True,
         "monitors": ["answer"],
         "n_quick": 6000, "n_thorough": 60000, "thorough_seeds": 3,
@@ -224,6 +225,12 @@ PROPS = {
                       "Proved on the model: a row with a tombstone by key or id of the same author matches no filter (hidden_row_never_matches, hidden_iff); the upsert replaces a stored row only by a "
                       "different, strictly newer event of a replaceable/addressable kind (upsert_replaces_iff); ephemeral events are never stored (ephemeral_not_stored); a skipped event changes "
                       "no table and a fresh one appends row, payload and tag rows (insertOne_noop, insertOne_fresh); a limit-0 filter contributes nothing (limit_zero_contributes_nothing). "
+                      "For EVERY history of batches from the empty database: any split into batches gives the same tables (batch_split_irrelevant); one row per key, each row from an inserted event, "
+                      "joined to that event's payload and carrying exactly its tag rows (tables_after_history), so every event a query returns is an inserted event identical in all seven fields "
+                      "(answer_event_is_inserted); every inserted event is settled - the row under its key is itself or one it could not replace (every_event_settled: newest wins); the tombstone "
+                      "tables are exactly the tombstones of the inserted deletion requests, so a row is hidden iff some inserted request of the same author names its id or address key, in either "
+                      "arrival order (tombstones_after_history, hidden_iff_request, delIdRows_mem). Not yet proved as one theorem: that the row test equals the NIP-01 predicate on the stored event "
+                      "(ids/authors hex normalisation, tag-row lookup) and hence the whole answer = spec; "
                       "Runtime-validated: every answer of the real database is judged, after every batch, both against the model's tables and against the history-based statement "
                       "(newest version per address, deletions by id/address of the same author in either arrival order, per-filter top-limit with ties, merged, distinct, non-increasing, "
                       "seven fields intact).",
